@@ -24,7 +24,7 @@ Dials == { [lead |-> FALSE, trail |-> t, quoted |-> st.quoted, fsep |-> fs, kvse
             t \in BOOLEAN, fs \in {<<SEMI>>, <<SEMI, SP>>, <<SP, SEMI, SP>>}, st \in Styles, r \in BOOLEAN }
 \* a GTF line cannot carry an escaped ';' (no escaping): the menu entry 5 is skipped for the gtf style
 RowsOK(d, sel) == \A i \in 1..Len(sel) : ~(d.fmt = "gtf" /\ sel[i] = 5)
-Rows(sel) == [i \in 1..Len(sel) |-> [n |-> (sel[i] * 5 + i) % 12, a |-> AttrMenu(i)[sel[i]]]]
+Rows(sel) == [i \in 1..Len(sel) |-> [n |-> (sel[i] * 5 + i) % 18, a |-> AttrMenu(i)[sel[i]]]]
 
 VARIABLES sel, d, cl, done, res, cons
 Init == sel \in UNION {[1..n -> 1..NMenu] : n \in 0..(MaxLines - 1)} /\ d \in Dials /\ cl = 0 /\ done = FALSE /\ res = [st |-> "none"] /\ cons = FALSE
